@@ -85,7 +85,11 @@ PROPS["C04"] = {
     "outside": ["scripts with more than one symbolic opcode position", "the decoder's grammar on scripts that are not encodings of generated shapes (decode is only run natively on encode() outputs; that part has no solver role and is reported as native_roundtrip_checked)", "real key parsing"],
     "assumptions": ["native round-trip findings (decode(encode(ms)) bytes / type / size) are comparisons made by the generator on real library output and are reported as violations without a solver"],
 }
-PROPS["C09"]["functions"] = PROPS["C09"]["functions"] + ["varint_len, push_opcode_size (symbolically, all inputs; hook H3)"]
+PROPS["C09"]["functions"] = PROPS["C09"]["functions"] + ["varint_len, push_opcode_size (symbolically, all inputs; hook H3)",
+    "symbolically on arbitrary child figures (16 bit each): ExtData::{cast_alt, cast_swap, cast_check, cast_zeronotequal, cast_verify, cast_true, cast_dupif, cast_nonzero, cast_likely, cast_unlikely, and_v, and_b, or_b, or_c, or_d, or_i, and_or, threshold (2 children, all k)} against the satisfaction table of the specification (element count, witness bytes, scriptSig bytes, executed-op surcharge)"]
+PROPS["C09"]["trusted_base"] = PROPS["C09"]["trusted_base"] + ["/verif/harness/src/c09.rs: the Miniscript specification's satisfaction table as compositions of child figures (accounting lemmas)"]
+PROPS["C09"]["outside"] = PROPS["C09"]["outside"] + ["max_exec_stack_count formulas", "thresh accounting with three or more children at rule level (measured: out of memory)", "descriptor-level weight formulas (max_weight_to_satisfy)"]
+PROPS["C12"]["functions"] = PROPS["C12"]["functions"] + ["symbolically on arbitrary static figures (32 bit each): ScriptContext::{check_global_consensus_validity, check_local_consensus_validity, check_global_policy_validity, check_local_policy_validity} of Legacy, Segwitv0, Tap, BareCtx against Bitcoin Core's limits (520 / 10000 / 3600 bytes, 201 opcodes, 1650-byte scriptSig, 100 witness items, 1000 stack elements)"]
 
 PROPS["C08"] = {
     "level": "translation_validation",
